@@ -6,6 +6,7 @@ import (
 	"crypto/tls"
 	"errors"
 	"fmt"
+	"io"
 	"net"
 	"net/http"
 	"os"
@@ -19,6 +20,7 @@ import (
 	"golang.org/x/net/http2/hpack"
 	"pgregory.net/rapid"
 
+	"verifharness/ref/framegen"
 	"verifharness/rig"
 	"verifharness/vstat"
 )
@@ -134,7 +136,25 @@ func genMuts(t *rapid.T) []Mutation {
 
 func gen(t *rapid.T) Script {
 	s := Script{ALPN: rapid.SampledFrom([]string{"h2", "http/1.1", ""}).Draw(t, "alpn"), NReq: rapid.IntRange(1, 3).Draw(t, "nreq")}
-	switch s.Kind = rapid.SampledFrom([]string{"bytes", "mutate-plain", "mutate-plain", "mutate-plain", "mutate-tls", "truncate", "stall", "iofault", "iofault", "panic", "panic"}).Draw(t, "kind"); s.Kind {
+	switch s.Kind = rapid.SampledFrom([]string{"bytes", "mutate-plain", "mutate-plain", "mutate-plain", "mutate-tls", "truncate", "stall", "iofault", "iofault", "panic", "panic", "h2-frames", "h2-frames", "h2-frames", "stall-reset"}).Draw(t, "kind"); s.Kind {
+	case "h2-frames":
+		// after a real handshake and preface: frames from the defect grammar (padding and priority
+		// fields, wrong fixed lengths, zero increments, reserved bits, unknown types)
+		s.ALPN = "h2"
+		n := rapid.IntRange(1, 6).Draw(t, "nframes")
+		for i := 0; i < n; i++ {
+			if rapid.IntRange(0, 3).Draw(t, "valid") == 0 {
+				s.Garbage = append(s.Garbage, validPlaintext("h2", 1)[len(xhttp2.ClientPreface):]...)
+			} else {
+				s.Garbage = append(s.Garbage, framegen.Frame(t)...)
+			}
+		}
+	case "stall-reset":
+		// a client that grants a huge window, stops reading until the server's DATA write backs up,
+		// resets the stream and only then drains
+		s.ALPN = "h2"
+		s.Limit = int64(rapid.SampledFrom([]int{300000, 1 << 20, 4 << 20}).Draw(t, "big"))
+		s.NReq = rapid.IntRange(1, 3).Draw(t, "streams")
 	case "bytes":
 		switch rapid.IntRange(0, 3).Draw(t, "bk") {
 		case 0:
@@ -267,6 +287,23 @@ func exec(t *testing.T, s Script) *vstat.Violation {
 				})
 			}
 		}
+		if s.Kind == "stall-reset" {
+			// With periodic or immediate flushing ReverseProxy's maxLatencyWriter holds a sync.Mutex while its
+			// Write is blocked by the stalled client, and its flush timer then waits on that mutex: a
+			// goroutine blocked on a mutex is not "durably blocked", so the bubble's fake clock would
+			// stand still for ever. No periodic flushing (-reverse-proxy-flush-interval=0) and backend
+			// responses with a Content-Length keep maxLatencyWriter out of the picture.
+			opts.NoFlushInterval = true
+		}
+		opts.BackendRespond = func(w http.ResponseWriter, r *http.Request, rec *rig.Recorded) {
+			var n int
+			if _, err := fmt.Sscanf(r.URL.Path, "/big/%d", &n); err == nil {
+				w.Header().Set("Content-Length", fmt.Sprint(n))
+				w.Write(bigBody(n))
+				return
+			}
+			w.Write([]byte("backend-ok"))
+		}
 		p := rig.StartProxy(opts)
 		// bystanders, connected before the victim
 		by1, err1 := rig.Connect(p, []string{"http/1.1"}, nil)
@@ -312,6 +349,40 @@ func exec(t *testing.T, s Script) *vstat.Violation {
 			case "bytes":
 				go raw.Write(s.Garbage)
 				drain(raw)
+				return
+			case "h2-frames", "stall-reset":
+				c, err := rig.Handshake(raw, rig.ClientOpts{StdALPN: []string{"h2"}})
+				if err != nil {
+					return
+				}
+				reachedPastTLS = true
+				if s.Kind == "h2-frames" {
+					go func() {
+						io.WriteString(c.Conn, xhttp2.ClientPreface)
+						fr := xhttp2.NewFramer(c.Conn, nil)
+						fr.WriteSettings()
+						c.Conn.Write(s.Garbage)
+					}()
+					go func() { time.Sleep(40 * time.Second); c.Conn.Close() }()
+					drain(c.Conn)
+					return
+				}
+				peer := rig.NewH2Peer(c.Conn)
+				peer.Start()
+				peer.Fr.WriteSettings(xhttp2.Setting{ID: xhttp2.SettingInitialWindowSize, Val: 1 << 30})
+				peer.Fr.WriteWindowUpdate(0, 1<<30-65535)
+				peer.PauseReads()
+				for i := 0; i < s.NReq; i++ {
+					peer.SendH2(uint32(1+2*i), rig.ReqSpec{Method: "GET", Path: fmt.Sprintf("/big/%d", s.Limit), Authority: "x"}, nil)
+				}
+				time.Sleep(2 * time.Second) // the server's writes have backed up in the connection buffer by now
+				for i := 0; i < s.NReq; i++ {
+					peer.Fr.WriteRSTStream(uint32(1+2*i), xhttp2.ErrCodeCancel)
+				}
+				time.Sleep(time.Second)
+				peer.ResumeReads()
+				time.Sleep(5 * time.Second)
+				c.Conn.Close()
 				return
 			case "truncate":
 				raw.LimitOut(s.Limit, "close")
@@ -361,6 +432,11 @@ func exec(t *testing.T, s Script) *vstat.Violation {
 		}
 		if ex := by2.Do(rig.ReqSpec{Method: "GET", Path: "/by2/after", Authority: "x"}); ex.Status != 200 || ex.Err != "" {
 			viol = vstat.Violf(s.Kind+sitePart(s)+"|other-connection-disturbed", "%s: HTTP/2 bystander request after the case: status %d err %q", describe(s), ex.Status, ex.Err)
+			return
+		}
+		// oracle 1b: other connections get their own, complete, unaltered responses (several streams at once)
+		if v := checkBig(by2, s, 6); v != nil {
+			viol = v
 			return
 		}
 		// oracle 2: a fresh control connection is accepted and served
@@ -443,7 +519,7 @@ var _ = errors.New
 
 func TestRobust(t *testing.T) {
 	rig.Certs()
-	col.Mandatory("kind:bytes", "kind:mutate-plain", "kind:mutate-tls", "kind:truncate", "kind:stall", "kind:iofault", "kind:panic", "past-tls-handshake",
+	col.Mandatory("kind:bytes", "kind:mutate-plain", "kind:mutate-tls", "kind:truncate", "kind:stall", "kind:iofault", "kind:panic", "kind:h2-frames", "kind:stall-reset", "past-tls-handshake",
 		"panic-site:GetCertificate", "panic-site:GetConfigForClient", "panic-site:VerifyConnection", "panic-site:ConnState", "panic-site:injector", "panic-site:handler",
 		"fault:Read", "fault:Write", "fault:SetDeadline", "fault:Close")
 	vstat.Run(t, vstat.Spec[Script]{Col: col, Quick: 1500, Thorough: 40000, Gen: gen, Exec: func(s Script) *vstat.Violation { return exec(t, s) }})
@@ -514,4 +590,46 @@ func TestEnumerate(t *testing.T) {
 	}
 	cole.SetExtra("exhaustive_subspace", "every panic site x protocol; every (I/O operation, call index <= 14, error kind) on the accepted connection; client disconnect after byte offsets 0..2700 of the valid h2/http/1.1/no-ALPN sessions (every offset in the thorough tier)")
 	cole.SetExtra("exhaustive", vstat.Tier() == "thorough")
+}
+
+func bigBody(n int) []byte {
+	b := make([]byte, n)
+	for i := range b {
+		b[i] = byte(n + i*7 + i>>9)
+	}
+	return b
+}
+
+// checkBig opens k concurrent streams for bodies of different sizes on an established HTTP/2 connection
+// and verifies every byte.
+func checkBig(cc *rig.ClientConn, s Script, k int) *vstat.Violation {
+	if cc.H2 == nil {
+		return nil
+	}
+	sizes := []int{100000, 70001, 33333, 65536, 16385, 50000, 1, 120000}
+	type pend struct {
+		sid  uint32
+		size int
+	}
+	var ps []pend
+	// grant the windows the responses need
+	cc.H2.Fr.WriteWindowUpdate(0, 1<<24)
+	base := cc.NextStreamID()
+	for i := 0; i < k; i++ {
+		sid := base + uint32(2*i)
+		if err := cc.H2.SendH2(sid, rig.ReqSpec{Method: "GET", Path: fmt.Sprintf("/big/%d", sizes[i%len(sizes)]), Authority: "x"}, nil); err != nil {
+			return vstat.Violf(s.Kind+sitePart(s)+"|other-connection-disturbed", "%s: bystander cannot send: %v", describe(s), err)
+		}
+		cc.H2.Fr.WriteWindowUpdate(sid, 1<<20)
+		ps = append(ps, pend{sid, sizes[i%len(sizes)]})
+	}
+	cc.SkipStreamIDs(k)
+	for _, p := range ps {
+		ex := cc.H2.AwaitResponse(p.sid, nil)
+		r := cc.H2.Response(p.sid)
+		if ex.Err != "" || ex.Status != 200 || !bytes.Equal(r.Body, bigBody(p.size)) {
+			return vstat.Violf(s.Kind+sitePart(s)+"|other-connection-gets-wrong-response", "%s: bystander stream %d asked for %d bytes: status %d err %q, got %d bytes (prefix intact: %v)", describe(s), p.sid, p.size, ex.Status, ex.Err, len(r.Body), bytes.HasPrefix(bigBody(p.size), r.Body))
+		}
+	}
+	return nil
 }
